@@ -84,11 +84,16 @@ def single_calls(rng, isa, sz, tier, writes_only=False):
         for rep in range(nrep):
             xs = pick_indices(rng, P * Q, R * C, rep % 3)
             calls.append('rv::flat2<%s,%s,%d,%d,%d,%d,%d>("%s");' % (T, ity, R, C, P, Q, vi, idx_str(xs)))
+    def other(lo, avoid):
+        """an extent >= lo that differs from everything in `avoid` (so that a wrong stride cannot go unnoticed)"""
+        x = lo + rng.randint(0, 3)
+        while x in avoid: x += 1
+        return x
     # index x index
     for _ in range(5 if tier == "quick" else 14):
         tot = rng.choice(sizes_around(V, rng, 8) + [V * 2 + 2, 6])
         M = rng.choice([d for d in range(1, tot + 1) if tot % d == 0]); N = tot // M
-        R = max(M, 2) + rng.randint(0, 3); C = max(N, 2) + rng.randint(0, 3)
+        R = other(max(M, 2), {M, N}); C = other(max(N, 2), {R, M, N, 1})
         vi = variant(True); i0t, i1t = rng.choice(itys), rng.choice(itys)
         for rep in range(nrep):
             a = pick_indices(rng, M, R, rep % 3); b = pick_indices(rng, N, C, (rep + (rep > 1)) % 3)
@@ -96,23 +101,25 @@ def single_calls(rng, isa, sz, tier, writes_only=False):
     # index x integer, integer x index
     for swap in (0, 1):
         for M in rng.sample(sizes_around(V, rng, 8), 2 if tier == "quick" else 5):
-            R = (max(M, 2) + rng.randint(0, 3)) if not swap else rng.randint(2, 5)
-            C = rng.randint(2, 5) if not swap else (max(M, 2) + rng.randint(0, 3))
+            if not swap: R = other(max(M, 2), {M}); C = other(2, {R, M, 1})
+            else: C = other(max(M, 2), {M, 1}); R = other(2, {C, M})
             bound = C if swap else R
             vi = variant(True); i0t, i1t = rng.choice(itys), rng.choice(["int", "long", "unsigned long", "short"])
             for rep in range(nrep):
-                a = pick_indices(rng, M, bound, rep % 3); num = rng.randrange(R if swap else C)
+                a = pick_indices(rng, M, bound, rep % 3)
+                hi = R if swap else C
+                num = hi - 1 if rep == 0 else rng.randrange(1, hi)
                 calls.append('rv::in_<%s,%s,%s,%d,%d,%d,%d,%d>("%s",%d);' % (T, i0t, i1t, R, C, M, swap, vi, idx_str(a), num))
     # index x fseq, fseq x index
     for kind in ("if_", "fi"):
-        for _ in range(3 if tier == "quick" else 8):
-            D = rng.randint(2, 9)                      # extent of the axis the fseq runs over
-            F = rng.randrange(D); S = rng.randint(1, 3)
+        for q in range(3 if tier == "quick" else 8):
+            D = rng.randint(3, 9)                      # extent of the axis the fseq runs over
+            F = rng.randrange(0 if q else 1, D - 1); S = rng.randint(1, 3) if q != 1 else 2
             L = rng.choice([-1, rng.randint(F + 1, D)])
             fsz = ((D if L < 0 else L) - F + S - 1) // S
             tot = rng.choice(sizes_around(V, rng, 8))
             K = max(1, tot // fsz)                     # length of the index tensor
-            O = max(K, 2) + rng.randint(0, 3)          # extent of the other axis
+            O = other(max(K, 2), {K, D, fsz, 1})       # extent of the other axis
             R, C = (O, D) if kind == "if_" else (D, O)
             vi = variant(True); ity = rng.choice(itys)
             for rep in range(nrep):
@@ -131,8 +138,8 @@ def exhaustive_calls(rng, isa, sz, tier, writes_only=False):
         for M in range(1, 4):
             ids = rot(rng, pool, nvar) if not writes_only else rng.sample(pool, min(nvar, len(pool)))
             calls.append("rv::flat1_all<%s,%s,%d,%d,%s>(%d,%du);" % (T, rng.choice(itys), N, M, vset(ids), per, rng.randrange(NV)))
-    shapes = [(2, 2, 3, 3), (2, 2, 2, 3), (2, 3, 2, 2), (3, 2, 1, 3), (1, 5, 1, 3), (5, 1, 3, 1), (2, 2, 3, 1)]
-    for (R, C, M, N) in (rng.sample(shapes, 4) if tier == "quick" else shapes):
+    shapes = [(2, 3, 3, 2), (3, 2, 2, 3), (2, 3, 2, 3), (3, 2, 1, 3), (1, 5, 1, 3), (5, 1, 3, 1), (2, 2, 3, 3), (2, 3, 3, 1)]
+    for (R, C, M, N) in (shapes[:2] + rng.sample(shapes[2:], 2) if tier == "quick" else shapes):
         ids = rot(rng, pool, nvar) if not writes_only else rng.sample(pool, min(nvar, len(pool)))
         calls.append("rv::ii_all<%s,%s,%s,%d,%d,%d,%d,%s>(%d,%du);" % (T, rng.choice(itys), rng.choice(itys), R, C, M, N, vset(ids), 1 if tier == "quick" else 3, rng.randrange(NV)))
     return calls
@@ -172,6 +179,9 @@ def sym_groups(tier, seed):
     calls = [c for c in exhaustive_calls(rng, "scalar", 4, tier) if ",3,2," in c or ",5,3," in c or "ii_all" in c][:4] + single_calls(rng, "scalar", 8, "quick")[:12]
     calls += ["rv::filt_all<Sym4,%s,5>(2,3u,0,0u);" % vset(rot(rng, NOCST, 5))]
     groups.append({"key": "scalar", "header": HDR, "isa": "scalar", "calls": calls})
+    only = os.environ.get("VERIF_C19_ONLY")          # development aid: restrict to the groups whose key matches
+    if only:
+        groups = [g for g in groups if re.search(only, g["key"])]
     return groups
 
 def real_groups(tier, seed):
